@@ -51,10 +51,14 @@ def cases(ctx):
     m = 2000 if ctx.tier == "quick" else 100000
     for i in range(m):
         out.append({"id": f"e{i}", "kind": "equality", "i": i})
+    out.append({"id": "contracts-repo-tests", "kind": "contracts", "i": 0})
     return out
 
 
 def run_case(case, ctx, res):
+    if case.get("kind") == "contracts":
+        from .. import contracts
+        return contracts.judge_repo_tests(res, ctx, ["test_datagroup.py", "test_dataset.py"], ("Datagroup.__setitem__", "Dataset.__setitem__"))
     if case["kind"] == "history":
         return _history(case, ctx, res)
     if case["kind"] == "eqfixed":
